@@ -70,6 +70,7 @@ func (s *State) evalIndexAssigment(which ast.Node, index, value object.Object) o
 	id, _ := which.(*ast.Identifier)
 	val, ok := s.env.Get(id.Literal())
 	if !ok {
+		s.env.TriggerNoCache() // depends on the name being unbound, like in evalIdentifier.
 		return s.NewError("identifier not found: " + id.Literal())
 	}
 	val = object.Value(val) // deref.
@@ -141,6 +142,7 @@ func (s *State) evalPrefixIncrDecr(operator token.Type, node ast.Node) object.Ob
 	id := nv.Literal()
 	val, ok := s.env.Get(id)
 	if !ok {
+		s.env.TriggerNoCache() // depends on the name being unbound, like in evalIdentifier.
 		return s.NewError("identifier not found: " + id)
 	}
 	val = object.Value(val) // deref.
@@ -165,6 +167,7 @@ func (s *State) evalPostfixExpression(node *ast.PostfixExpression) object.Object
 	id := node.Prev.Literal()
 	val, ok := s.env.Get(id)
 	if !ok {
+		s.env.TriggerNoCache() // depends on the name being unbound, like in evalIdentifier.
 		return s.NewError("identifier not found: " + id)
 	}
 	val = object.Value(val) // deref.
